@@ -64,10 +64,21 @@ def frame_oracle(kind, ops, obs):
     rehomed = False
     known = None
     for i, (op, o) in enumerate(zip(ops, obs)):
+        raw, op = op, sc.norm_op(op)       # an importer call counts as the storage call it must amount to
         # graph ids whose per-id nx.Graph holds nodes (whatever their GraphID property says)
         stored = set() if kind == 'shared' or i == 0 else {e[0] for e in snaps[i - 1]}
         cur = sc.views(kind, snaps[i])
         k = op[0]
+        if k == 'refused':
+            # an empty graph, a node without GraphID or mixed GraphIDs on a direct entry point: the importer must raise
+            # before the storage is touched
+            if o['r'][0] == 'ok':
+                return 'step %d importer %s accepted a graph it must refuse (%s)' % (
+                    i, raw[4], 'empty graph' if not raw[2] else 'nodes do not all carry one GraphID')
+            if o['s'] is not None:
+                return 'step %d a refused import (%s) changed the store' % (i, raw[4])
+            prev = cur
+            continue
         if kind == 'shared':
             ids = [n[0] for n in snaps[i][0]]
             if len(ids) != len(set(ids)):
@@ -135,7 +146,7 @@ class Hist(Stream):
         self.check_fn = 'check_iso_shared' if kind == 'shared' else 'check_iso_disjoint'
         self.rule = ('%s store: random interleaved histories (depth 8-30) over 3 graph ids x 5 node ids incl. imports '
                      'of graphs whose keys collide with stored internal ids, re-import, delete+re-import, clone, '
-                     'malformed imports; on the shared store a fifth of the histories start from a pre-state with cross-graph links left by merge_nodes and then clone / delete / import / match the graphs on either side; plus all histories of depth<=D over a 9-operation alphabet; '
+                     'malformed imports, the four importer entry points on serialised graphs (GraphML / node-link JSON, incl. mixed GraphIDs); on the shared store a fifth of the histories start from a pre-state with cross-graph links left by merge_nodes and then clone / delete / import / match the graphs on either side; plus all histories of depth<=D over a 9-operation alphabet; '
                      'non-trivial = at least two graph ids hold nodes at some step and >=3 state-changing steps; '
                      'distinct by (history, observations)' % kind)
 
@@ -161,7 +172,14 @@ class Hist(Stream):
                 continue
             depth = rng.choice([8, 12, 16, 20, 25, 30])
             # merge_nodes is not among the operations C04 quantifies over (C05 covers it)
-            out.append(sc.gen_history(rng, depth, identity_rate=0.03, weights=self.W))
+            h = sc.gen_history(rng, depth, identity_rate=0.03, weights=self.W)
+            if rng.random() < 0.4:
+                # the four importer entry points (GraphML / node-link JSON text of generated graphs, incl. strings whose
+                # nodes carry mixed GraphIDs): a refused import changes nothing, an accepted one touches only its graph
+                for _ in range(rng.choice([1, 2, 3])):
+                    live = sorted({o2[1] for o2 in h if o2[0] in ('add_node', 'import')})
+                    h.insert(rng.randrange(2, len(h) + 1), sc.gen_importer_op(rng, live=live))
+            out.append(h)
         d = 2 if tier == 'quick' else 4
         alphabet = self.EXH[:9] if tier == 'quick' else self.EXH
         for k in range(1, d + 1):
